@@ -8,7 +8,7 @@ from crosshair.tracers import NoTracing
 from tartiflette import create_engine, Directive, Scalar, Resolver
 
 META = {
-    "bounds": "catalogue of 101 rule-breaking SDL texts (every rule of the statement at several sites: field / argument / input field / wrapped / via extend / in a second file) "
+    "bounds": "catalogue of 111 rule-breaking SDL texts (every rule of the statement at several sites: field / argument / input field / wrapped / via extend / in a second file) "
               "+ generators over wrapper bits for interface conformance (field type 8x8 wrappings x 4 base-type pairs, argument type 8x8, extra argument nullability/default)",
     "outside": "SDL outside the catalogue/generators; engine builds run concretely (create_engine under tracing costs ~40 s because of the lark parse: the selectors are "
                "resolved by branching, then the build runs untraced on concrete text — the solver contributes the exhaustive enumeration of the selector space only)",
@@ -128,6 +128,10 @@ CATALOGUE = [
     ("extend: field of undefined type", OK_BASE + "type T { x: Int } extend type T { y: [Nope] }"),
     # syntax
     ("syntax: missing closing brace", "type Query { a: Int"), ("syntax: missing colon", "type Query { a Int }"), ("syntax: empty", ""), ("syntax: garbage", "tpye Query { a: Int }"),
+    ("syntax: doubled non-null marker", "type Query { a: Int!! }"), ("syntax: doubled non-null marker on a list", "type Query { a: [Int]!! }"), ("syntax: doubled non-null marker on a list item", "type Query { a: [Int!!] }"),
+    ("syntax: tripled non-null marker on an argument", "type Query { a(x: Int!!!): Int }"), ("syntax: doubled non-null marker on an input field", OK_BASE + "input In { x: Int!! }"),
+    ("syntax: non-null marker before the type", "type Query { a: !Int }"), ("syntax: empty list type", "type Query { a: [] }"), ("syntax: unbalanced list type", "type Query { a: [[Int] }"),
+    ("syntax: doubled non-null marker on a directive argument", OK_BASE + "directive @d(x: Int!!) on FIELD"), ("syntax: doubled non-null marker in an extension", OK_BASE + "extend type Query { b: Int!! }"),
     ("syntax: unterminated string", 'type Query { a: Int } """doc'), ("syntax: bad default", "type Query { a(x: Int = ): Int }"), ("syntax: executable definition", "query { a }"),
 ]
 SPECIAL = [("scalar without implementation", OK_BASE + "scalar My", {"impl_scalar": False}), ("scalar without implementation (used)", "scalar My type Query { a: My }", {"impl_scalar": False}),
